@@ -41,5 +41,14 @@ class GD:
         return []
 
 
-FIELDS = {GA: ('x',), GB: ('one', 'many'), GC: ('a', 'b'), GD: ('p', 'label')}
-RUN_RETURN = {GA: 'int', GB: 'dict', GC: None, GD: 'list[int]'}
+@labtech.task
+class GE(GD):
+    """A task type that inherits its parameters from another task type and adds one."""
+    z: int = 0
+
+    def run(self) -> list[int]:
+        return [self.z]
+
+
+FIELDS = {GA: ('x',), GB: ('one', 'many'), GC: ('a', 'b'), GD: ('p', 'label'), GE: ('p', 'label', 'z')}
+RUN_RETURN = {GA: 'int', GB: 'dict', GC: None, GD: 'list[int]', GE: 'list[int]'}
